@@ -13,6 +13,9 @@ pub struct IssuerAlternativeNameValidator;
 
 impl IssuerAlternativeNameValidator {
     fn check(ian: IssuerAltName) -> Option<Error> {
+        if ian.0.is_empty() {
+            return Some("no general names found".to_string());
+        }
         if !ian.0.iter().all(|gn| {
             matches!(
                 gn,
